@@ -271,6 +271,18 @@ func (e *otherEnv) runBC(cs *caseT) *outcome {
 	if pn != nil {
 		out.Contained = fmt.Sprintf("%v at %s", short(fmt.Sprint(pn), 160), panicSite(stk))
 	}
+	if !w.r.VerifC18TryLock() {
+		// nothing below can run: every writer of the mutex (setMaxPeerHeight, endSync, startSync) blocks
+		or := "lock-leaked"
+		if pn != nil {
+			or = "contained-panic-leaves-lock"
+		}
+		out.viol(or, "BlockchainReactor.mtx is still held after Receive returned (the next writer - setMaxPeerHeight, endSync - and through it the demux loop hang); panic: %q", out.Contained)
+		out.Stage = "lock-leaked"
+		out.Alloc = allocBytes() - a0
+		dirty = true // the world is unusable
+		return out
+	}
 	queued := w.r.VerifC18QueuedEvents()
 	// the routines that consume what Receive queued (scheduler, processor): goroutines without recover
 	var finished bool
